@@ -520,9 +520,14 @@ where
 
   /// Asynchronously removes all entries from the cache.
   pub async fn clear(&self) {
-    // 1. Asynchronously acquire all write locks.
-    let mut shard_guards =
-      future::join_all(self.shared.store.iter_shards().map(|s| s.map.write_async())).await;
+    // 1. Asynchronously acquire all write locks, one after the other in shard
+    //    order - the order the sync `clear()` uses. Acquiring them concurrently
+    //    (join_all) takes them in whatever order they become free, and two
+    //    overlapping clears (sync + async) then deadlock AB-BA.
+    let mut shard_guards = Vec::with_capacity(self.shared.store.shards.len());
+    for shard in self.shared.store.iter_shards() {
+      shard_guards.push(shard.map.write_async().await);
+    }
 
     // 2. Iterate through each shard, notify the corresponding policy for each
     //    key being removed, and then clear the shard's map.
